@@ -373,7 +373,9 @@ pub fn plan(tier: Tier) -> Plan {
     }
     for p in super::c01::flat_pipes() {
       n_pipes += 1;
-      jobs.push(pipeline_job(p, form, len2));
+      // "inner 1 runs, inner 2 is queued, the outer completes, inner 1 completes,
+      // inner 2 emits" takes five events
+      jobs.push(pipeline_job(p, form, len2 + 1));
     }
     for s in cold_sources() {
       for p in chains(&Pipe::S(s), &super::c01::all_ops(false), 1) {
